@@ -100,11 +100,23 @@ fn main() {
     let sw = Swarm { sans: !crypto, wide_dn: true, exts: !crypto, constraints: !crypto, big: false, hashed_kid: crypto, auto_serial: crypto };
     // with the ring stub the shared keys are *local* keys (rcgen's own signing plumbing and
     // digest-based key identifiers run); without it they sit behind the pure-Rust remote signer
+    // (argv[3] = "rsa": RSA keys, whose signing path in rcgen has a buffer of its own)
     #[cfg(feature = "fakering")]
-    let (key, subject) = (
-        Arc::new(rcgen::KeyPair::generate_for(&rcgen::PKCS_ED25519).expect("stub keygen")),
-        Arc::new(rcgen::KeyPair::generate_for(&rcgen::PKCS_ED25519).expect("stub keygen")),
-    );
+    let (key, subject) = if args.get(3).map(|s| s.as_str()) == Some("rsa") {
+        let fake = |id: u8, r: &mut Rng| {
+            let mut k = b"FAKERSA".to_vec();
+            k.push(id);
+            k.extend_from_slice(&r.bytes(32));
+            let alg = [&rcgen::PKCS_RSA_SHA256, &rcgen::PKCS_RSA_SHA384, &rcgen::PKCS_RSA_SHA512][(seed % 3) as usize];
+            rcgen::KeyPair::from_pkcs8_der_and_sign_algo(&pki_types::PrivatePkcs8KeyDer::from(k), alg).expect("stub RSA key")
+        };
+        (Arc::new(fake(1, &mut r)), Arc::new(fake(2, &mut r)))
+    } else {
+        (
+            Arc::new(rcgen::KeyPair::generate_for(&rcgen::PKCS_ED25519).expect("stub keygen")),
+            Arc::new(rcgen::KeyPair::generate_for(&rcgen::PKCS_ED25519).expect("stub keygen")),
+        )
+    };
     #[cfg(not(feature = "fakering"))]
     let (key, subject) = (
         Arc::new(rcgen::KeyPair::from_remote(Box::new(PureSigner { public: r.bytes(32), id: 1 })).unwrap()),
